@@ -142,6 +142,8 @@ PARSER_TABLE = {
     "parse_macro": (2, 5, True, False), "parse_keyword": (5, 1, True, True), "parse_decl": (6, 1, True, True), "parse_block": (7, 1, True, True),
     "parse_initial": (8, 0, False, True),
 }
+# functions entered on a token their caller has classified already (second contract: error location)
+FIRST_TOKEN_NOT_END = {"parse_opcode", "parse_symbol_affectation", "parse_keyword"}
 PARSER_FUNCTIONS = [PSQ + n for n in PARSER_TABLE] + [PSQ + n for n in ("parse_operand_and_addressing", "parse_macro_definition_args", "parse_map", "parse_struct",
                     "parse_directive_with_quoted_string", "parse_label", "parse_code_lookup", "is_value_size")] + \
                    ["a816.parse.parser.Parser." + n for n in ("current", "peek", "next", "backup")] + ["a816.parse.parser." + n for n in ("expect_token", "expect_tokens", "accept_token", "accept_tokens")]
@@ -153,8 +155,8 @@ def _check_model_table(E):
     for name, (rank, delta, eof, _len) in PARSER_TABLE.items():
         fn, _m, _c = E.index.functions[PM + name + "_model"]
         call = fn.body[0].value
-        got = tuple(_ast.literal_eval(a) for a in call.args[1:])
-        if got != (rank, delta, eof):
+        got = tuple(_ast.literal_eval(a) for a in call.args[1:4])
+        if got != (rank, delta, eof) or (len(call.args) > 4) != (name in FIRST_TOKEN_NOT_END):
             raise RuntimeError(f"parsemodel.{name}_model states {got}, the case table {(rank, delta, eof)}")
 
 
@@ -219,6 +221,37 @@ def shape_parser(name):
         return {"p": p, "fn": B.func(PSQ + name), "rank": rank, "delta": delta, "eof_raises": eof, "no_include": name in ("parse_keyword",), "lenient": lenient,
                 "consumes_all": name == "parse_initial"}
     return sh
+
+
+def shape_parser_located(name):
+    rank, delta, eof, lenient = PARSER_TABLE[name]
+
+    def sh(B):
+        import z3
+        f = B.inst("a816.parse.tokens.File", filename="t.s", lines=B.list([]))
+        toks = B.symtokens("tokens", file=f)
+        n, types = B.symbols["tokens_len"], B.symbols["tokens_type"]
+        members = B.engine.lifter.enum_members("a816.parse.tokens.TokenType")
+        eof_code = list(members).index("EOF")
+        i = z3.Int("i!shape")
+        # the scanner's output shape: at least the end marker, which is the last token, the only EOF token, and has no text
+        B.assume(z3.Select(B.symbols["tokens_vlen"], n - 1) == 0)
+        B.assume(z3.And(n >= 1, z3.ForAll([i], z3.Implies(z3.And(0 <= i, i < n), (z3.Select(types, i) == eof_code) == (i == n - 1)))))
+        p = B.inst("a816.parse.parser.Parser", tokens=toks, pos=B.int("pos"), initial_state=None)
+        return {"p": p, "fn": B.func(PSQ + name), "rank": rank, "no_include": name in ("parse_keyword",), "first_token_not_end": name in FIRST_TOKEN_NOT_END}
+    return sh
+
+
+def parser_location_cases(E):
+    """every ParserSyntaxError carries a token with a position (shared by C14 and C17)"""
+    from vf.pyvc.loops import LoopSpec
+    C, L = parser_specs(E)
+    L = dict(L)
+    for key, spec in list(L.items()):
+        if key[0].startswith(PSQ):
+            L[key] = LoopSpec(spec.name, PH + "inv_parser_located", variant=PH + "var_parser", havoc=spec.havoc, modifies=spec.modifies, ghost=spec.ghost)
+    return [Case(PH + "parser_error_location_contract", name, shape_parser_located(name), target=[PSQ + name], timeout_ms=30000, group="parser-error-location", contracts=C, loop_specs=L)
+            for name in PARSER_TABLE]
 
 
 def parser_cases(E):
